@@ -254,6 +254,48 @@ def forked_unseeded(ao):
     return []
 
 
+def _churn(ao, k):
+    """heap traffic between two reproductions: arrays of many sizes filled with junk and released, unrelated library calls"""
+    g = np.random.default_rng(1000 + k)
+    junk = [np.full(int(n_), 1e6 * (i + 1.5)) for i, n_ in enumerate(g.integers(1, 4000, size=60))]
+    junk += [np.full((int(n_), int(n_)), -3e5 * (i + 1)) for i, n_ in enumerate(g.integers(2, 70, size=30))]
+    del junk
+    ao.circle(3.3, 16)
+    ao.ft2(np.full((17, 17), 5e3 + 0j), 0.1)
+    ao.image_processing.centre_of_gravity(np.full((33, 33), 7e4))
+    for n_ in (5, 9, 12, 16, 17, 20, 30, 33, 65, 129, 257):        # blocks of the sizes screens use for their vectors, with junk that differs from
+        tmp = [np.full(n_, 1e8 * (k + 1) + i) for i in range(6)]     # one reproduction to the next (released right away)
+        del tmp
+
+
+def churn_reproducibility(ao):
+    """seeded infinite screens rebuilt after heap churn: ill-conditioned parameter sets (B B^T has eigenvalues at rounding level) and
+    Fried screens whose working size is padded - whatever is not written from the seed stream must not come from old memory"""
+    from aotools.turbulence import infinitephasescreen as ips
+    bad = []
+    n = 0
+    cfgs = [("vk", 17, dict(n_columns=4), (0.01, 0.2, 1000.0)), ("vk", 32, dict(n_columns=4), (0.01, 0.2, 1000.0)), ("vk", 33, dict(n_columns=3), (0.02, 0.3, 500.0)),
+            ("fried", 8, {}, (0.5, 0.2, 20.0)), ("fried", 12, {}, (0.5, 0.2, 20.0)), ("fried", 16, dict(stencil_length_factor=2), (0.5, 0.2, 20.0)),
+            ("fried", 20, {}, (0.1, 0.15, 50.0)), ("fried", 30, dict(stencil_length_factor=2), (0.5, 0.2, 20.0)), ("vk", 9, {}, (0.5, 0.2, 20.0))]
+    for variant, req, kw, prm in cfgs:
+        cls = ips.PhaseScreenVonKarman if variant == "vk" else ips.PhaseScreenKolmogorov
+        hashes = []
+        try:
+            for rep in range(4):
+                _churn(ao, rep * 7 + req)
+                obj = cls(req, prm[0], prm[1], prm[2], random_seed=5, **kw)
+                rows = [np.array(obj.scrn, copy=True)] + [np.array(obj.add_row(), copy=True) for _ in range(6)]
+                hashes.append(_h(np.array(rows)))
+                del obj
+        except np.linalg.LinAlgError:
+            continue          # construction refused: outside the property
+        n += 1
+        if len(set(hashes)) != 1:
+            bad.append(("rng:not-reproducible:after-unrelated-memory-traffic", dict(variant=variant, size=req, params=list(prm), distinct=len(set(hashes)), **kw)))
+            break
+    return bad, n
+
+
 def run(run):
     ao = core.import_aotools()
     quick = run.tier == "quick"
@@ -300,6 +342,12 @@ def run(run):
     for key, detail in forked_unseeded(ao):
         run.violation(key, detail, dict(kind="fork"))
     run.traces += 1
+    with np.errstate(all="ignore"):
+        badc, nc = churn_reproducibility(ao)
+    run.traces += nc
+    run.aux["reproductions_after_memory_traffic"] = nc
+    for key, detail in badc:
+        run.violation(key, detail, dict(kind="churn"))
     run.sample(behaviours[0])
     run.sample(behaviours[-1])
     run.aux.update(action_counts=acts, skipped_steps={k: NOTES.count(k) for k in set(NOTES)})
@@ -316,6 +364,10 @@ def run(run):
 def replay(run, case):
     ao = core.import_aotools()
     warnings.simplefilter("ignore")
+    if case.get("kind") == "churn":
+        for key, detail in churn_reproducibility(ao)[0]:
+            run.violation(key, detail, case)
+        return
     if case.get("kind") == "fork":
         for key, detail in forked_unseeded(ao):
             run.violation(key, detail, case)
